@@ -289,11 +289,11 @@ func TestC06(t *testing.T) {
 }
 
 var histFilters = []string{"a", "b", "a/b", "a/+", "a/#", "+", "#", "+/b", "+/+", "a/b/c", "a/+/c", "a/b/#", "+/b/#", "a/b/c/d", "+/+/+", "x/y", "x/#", "x/+/z",
-	"sport/tennis/player1", "sport/tennis/+", "sport/#", "spört/+", "long" + "0123456789012345678901234567890123456789" + "/x", "a/b/c/d/e/f", "+/+/+/+/+/+", "b/#", "b/+", "x", "x/y/z", "a/+/+/d"}
-var histInvalid = []string{"a/#/b", "#/a", "a+", "a/b+", "+a/b", "a#", "a/#b", ""}
+	"sport/tennis/player1", "sport/tennis/+", "sport/#", "spört/+", "long" + "0123456789012345678901234567890123456789" + "/x", "a/b/c/d/e/f", "+/+/+/+/+/+", "b/#", "b/+", "x", "x/y/z", "a/+/+/d", "a/$x", "+/$x", "a/$x/#", "b/$"}
+var histInvalid = []string{"a/#/b", "#/a", "a+", "a/b+", "+a/b", "a#", "a/#b", "", "+$", "a/+$", "a/#$", "#$"}
 var histEmptyLv = []string{"/a", "a//b", "a/", "/", "+/", "/#"}
 var histNames = []string{"a", "b", "c", "a/b", "a/c", "b/b", "a/b/c", "a/x/c", "a/b/c/d", "a/b/c/d/e/f", "x", "x/y", "x/y/z", "x/q/z", "sport", "sport/tennis", "sport/tennis/player1",
-	"sport/tennis/player2", "spört/x", "long0123456789012345678901234567890123456789/x", "b", "b/c", "b/c/d", "q", "q/r", "a/b/x", "a/q/r/d", "x/y/z/w"}
+	"sport/tennis/player2", "spört/x", "long0123456789012345678901234567890123456789/x", "b", "b/c", "b/c/d", "q", "q/r", "a/b/x", "a/q/r/d", "x/y/z/w", "a/$x", "a/$x/y", "b/$x", "b/$"}
 
 type subKey struct {
 	sub    int
